@@ -34,10 +34,13 @@ TEXT = {'design_ref': 'DESIGN.md section 4, C18 (and 3.5 for the hooks and the c
          'with an unfinished thread in which no finished thread still holds the lock has an enabled event (deadlock freedom); per step: a failed try '
          '(including a try upgrade, fixed in /repo by d881489) leaves the state unchanged and never waits, a failed timed call removes only its own waiting '
          'entry, with writer preference a new reader is admitted only when no writer waits, after its time-out event a plain timed acquisition returns '
-         'B_TIMED_OUT in its next, always enabled, step.  The model is tied to the C++ code by running both on the same programs and schedules '
+         'B_TIMED_OUT in its next, always enabled, step; and a classification of boundedness: in every reachable configuration a thread inside any try/timed '
+         'call has an enabled event of its own (try_timed_calls_bounded) unless it is re-taking its read locks after a FAILED timed upgrade, and a try/timed '
+         'call with no enabled own event is exactly that case (only_failed_timed_upgrade_is_unbounded), with a witness schedule.  The model is tied to the C++ code by running both on the same programs and schedules '
          '(bounded-preemption exhaustive + random) and by direct oracles on the real tables.',
  'note': 'No clock (time-outs are events), sequential consistency of the hooked steps, counters < 2^32, no allocation failure.  Finding F13, timed variant (a '
-         'timed read-to-write upgrade re-takes its read locks with the untimed LockReadOnly() and can block past its deadline) is open: excluded from '
-         'timed_returns, shown reachable in the model (f13_timed_upgrade_blocks), triggers kept in corpus/C18/rw-known-F13.ops and reported as KNOWN-FINDING; '
+         'timed read-to-write upgrade re-takes its read locks with the untimed LockReadOnly() and can block past its deadline) is open (no small repair: the read locks are dropped before the wait, so once another writer holds the lock they cannot be restored '
+         'without waiting for it; a repair must keep them while waiting, i.e. a different upgrade protocol): excluded from '
+         'timed_returns, characterised exactly in the model (only_failed_timed_upgrade_is_unbounded, witness f13_timed_upgrade_blocks), triggers kept in corpus/C18/rw-known-F13.ops and reported as KNOWN-FINDING; '
          'the time-out-0 variant is fixed and guarded by corpus/C18/rw-regress-F13-try.ops and try_upgrade_never_blocks.  Trusted: Lean kernel, statement '
          'file, scheduler + hooks, sampling correspondence.'}
